@@ -25,7 +25,8 @@ THEOREMS = ["luba_consts", "sci_consts", "luba_refines_from", "luba_refines", "s
             "luba_chunking_independent", "sci_chunking_independent", "luba_chunked_refines", "sci_chunked_refines",
             "luba_no_internal_error", "luba_step_no_internal", "sci_never_raises",
             "luba_always_resyncs", "sci_always_resyncs",
-            "luba_resync_bound", "luba_resync_delivers", "luba_resync_bound_any_history"]
+            "luba_resync_bound", "luba_resync_delivers", "luba_resync_bound_any_history",
+            "sci_repeat_delivered_twice", "sci_error_report_repeated", "luba_repeat_delivered_twice"]
 TRUSTED = ["hand-written model Model/SerialRx.lean of LubaProtocol/SCIRS232Protocol._process_byte, data_received and "
            "the handlers (tied by this correspondence: grammar-guided and random streams x random chunkings, every "
            "length byte 0..255 and every SCI status byte exhaustively)",
@@ -54,7 +55,10 @@ LEVEL_TEXT = ("Lean 4 theorems for byte streams of any length: the byte-wise fol
               "all); from every state with a frame in progress the continuation is deframed like the reference, and everything sent "
               "from a boundary is delivered (luba_refines_from, luba_always_resyncs, sci_always_resyncs); from every LUBA state "
               "a frame boundary is reached within MAX_LEN-1 = 23 bytes other than 'Y' and the next well-formed frame is "
-              "delivered (luba_resync_bound, luba_resync_delivers, luba_resync_bound_any_history).")
+              "delivered (luba_resync_bound, luba_resync_delivers, luba_resync_bound_any_history); the receivers keep no "
+              "memory of delivered items: a well-formed frame received twice in a row from a frame boundary is delivered "
+              "twice, k identical SCI error reports give k device replies (sci_repeat_delivered_twice, "
+              "sci_error_report_repeated, luba_repeat_delivered_twice).")
 LEVEL_NOTE = ("Trusted: Lean kernel; the hand-written receiver model corresponds to dali/driver/serial.py as far as the "
               "correspondence suite exercises it (sampled streams; exhaustive at the length position and over SCI status "
               "bytes); the reference deframer is my reading of the vendor framing, max payload pinned; decode oracle probed.")
